@@ -143,6 +143,33 @@ def _produce(st, sc, out: OutputCollector, ctx: CallContext) -> None:  # noqa: A
         out.finish()
 
 
+def rows_batch(seed: int, k: int, n: int, r: int, pad: int) -> pa.RecordBatch:
+    """Batch k of a rows-mode producer: r rows (0, 1 or many), every row carrying the batch's payload."""
+    return pa.RecordBatch.from_pydict({"k": [k] * r, "p": [payload(seed, k, n)] * r}, schema=_schema(pad))
+
+
+@dataclass
+class PR(ProducerState):
+    """Producer whose batches have 0 / 1 / many rows and carry application metadata (k, tag)."""
+
+    sizes: list[int]
+    rows: list[int]
+    seed: int
+    eager: bool
+    pad: int
+    i: int = 0
+
+    def produce(self, out: OutputCollector, ctx: CallContext) -> None:
+        if self.i >= len(self.sizes):
+            out.finish()
+            return
+        out.emit(rows_batch(self.seed, self.i, self.sizes[self.i], self.rows[self.i], self.pad),
+                 metadata={"k": str(self.i), "tag": f"m{self.i}"})
+        self.i += 1
+        if self.eager and self.i == len(self.sizes):
+            out.finish()
+
+
 @dataclass(frozen=True)
 class Hdr(ArrowSerializableDataclass):
     blob: bytes
@@ -170,6 +197,8 @@ class H1Svc(Protocol):
     def prod(self, sizes: list[int], logs: list[int], seed: int, eager: bool, pad: int) -> Stream[StreamState]: ...
     def prodc(self, sizes: list[int], logs: list[int], seed: int, eager: bool, pad: int) -> Stream[StreamState]: ...
     def prodh(self, sizes: list[int], logs: list[int], seed: int, eager: bool, pad: int, hdr: int) -> Stream[StreamState, Hdr]: ...
+    def prodr(self, sizes: list[int], rows: list[int], seed: int, eager: bool, pad: int) -> Stream[StreamState]: ...
+    def produ(self, sizes: list[int], logs: list[int], seed: int, eager: bool, pad: int, member: int) -> Stream[StreamState]: ...
     def exch(self, seed: int, pad: int) -> Stream[StreamState]: ...
     def exchh(self, seed: int, pad: int, hdr: int) -> Stream[StreamState, Hdr]: ...
     def unary(self, size: int, log: int, seed: int) -> bytes: ...
@@ -188,6 +217,13 @@ class H1Impl:
     def prodh(self, sizes: list[int], logs: list[int], seed: int, eager: bool, pad: int, hdr: int) -> Stream[PS, Hdr]:
         return Stream(output_schema=_schema(pad), state=PS(sizes=list(sizes), logs=list(logs), seed=seed, eager=eager, pad=pad),
                       header=Hdr(blob=payload(seed, 9999, hdr)))
+
+    def prodr(self, sizes: list[int], rows: list[int], seed: int, eager: bool, pad: int) -> Stream[PR]:
+        return Stream(output_schema=_schema(pad), state=PR(sizes=list(sizes), rows=list(rows), seed=seed, eager=eager, pad=pad))
+
+    def produ(self, sizes: list[int], logs: list[int], seed: int, eager: bool, pad: int, member: int) -> Stream[PS | PC]:
+        """Union-state method: member 0 = cursor-only state, member 1 = state with call state (tagged in the token)."""
+        return self.prodc(sizes, logs, seed, eager, pad) if member else self.prod(sizes, logs, seed, eager, pad)
 
     def exch(self, seed: int, pad: int) -> Stream[XS]:
         return Stream(output_schema=_schema(pad), state=XS(seed=seed, pad=pad), input_schema=X_IN)
@@ -274,6 +310,7 @@ class Router:
         self.route = next(iter(apps))
         self.plan: list[str] = []          # per-request routing plan (consumed first)
         self.accept = accept
+        self.custom_header = False
         self.prefix = prefix
         self.log: list[dict] = []
         self.storage = storage
@@ -289,7 +326,11 @@ class Router:
     def _do(self, verb: str, url: str, content: bytes | None, headers: dict | None) -> Resp:
         h = dict(headers or {})
         if self.accept is not None:
-            h["Accept-Encoding"] = self.accept
+            if self.custom_header:           # VGI's own negotiation header (answer comes on X-VGI-Content-Encoding)
+                h["X-VGI-Accept-Encoding"] = self.accept
+                h["Accept-Encoding"] = ""
+            else:
+                h["Accept-Encoding"] = self.accept
         w = self.plan.pop(0) if self.plan else self.route
         path = urlparse(url).path
         idx = len(self.log)
@@ -326,7 +367,8 @@ class Router:
         pass
 
 
-def make_apps(workers, *, cap=None, ext_cap=None, storage=None, threshold=None, cache_entries=4096, compression=None):
+def make_apps(workers, *, cap=None, ext_cap=None, storage=None, threshold=None, cache_entries=4096, compression=None,
+              prefix=""):
     """One RpcServer + WSGI app per worker name, sharing the token key (independent call-state caches)."""
     from vgi_rpc.external import Compression, ExternalLocationConfig
     from vgi_rpc.http import make_wsgi_app
@@ -339,7 +381,7 @@ def make_apps(workers, *, cap=None, ext_cap=None, storage=None, threshold=None, 
                                          compression=Compression(compression) if compression else None)
         srv = RpcServer(H1Svc, H1Impl(), external_location=ext)
         apps[w] = make_wsgi_app(srv, token_key=KEY, max_response_bytes=cap, max_externalized_response_bytes=ext_cap,
-                                call_state_cache_entries=cache_entries)
+                                call_state_cache_entries=cache_entries, prefix=prefix)
     return apps
 
 
